@@ -69,7 +69,8 @@ _add("C10", "Pfdl.Check.checkStmt_descent", "Pfdl.Check.validate_of_nested_stmt"
      "Pfdl.Props.C10.unknown_task", "Pfdl.Props.C10.ill_formed_parallel_loop", "Pfdl.Props.C10.singleCall_iff",
      "Pfdl.Props.C10.unknown_variable_as_service_input", "Pfdl.Props.C10.unknown_variable_as_call_input", "Pfdl.Props.C10.call_arity",
      "Pfdl.Props.C10.no_production_task", "Pfdl.Props.C10.undeclared_task_output", "Pfdl.Props.C10.unknown_type_in_struct",
-     "Pfdl.Props.C10.recursion_direct")
+     "Pfdl.Props.C10.recursion_direct", "Pfdl.Check.checkExpr_logicOk", "Pfdl.Props.C10.logic_operand_in_while_guard",
+     "Pfdl.Props.C10.logic_operand_in_condition")
 _add("C16", "Pfdl.Props.C16.verdict_iff_no_output", "Pfdl.Props.C16.total_after_parsing", "Pfdl.Check.validate_total",
      "Pfdl.Check.access_typeable", "Pfdl.Check.checkExpr_total", "Pfdl.Props.C16.invalid_inert")
 _add("C19", "Pfdl.Props.C19.in_file", "Pfdl.Check.validate_lines", "Pfdl.Props.C19.within_statement", "Pfdl.Props.C19.call_fault_at_call",
